@@ -346,6 +346,11 @@ func runC11(c *harness.Ctx) {
 			R.Eval(s.U.N.Seq())
 		}
 	}
+	for v := 0; v < 4; v++ {
+		if mine(c, 4+v) {
+			growthHistory(c, v, 2, "C11")
+		}
+	}
 }
 
 // baseCalls: one typical successful call per function and form, in a funded scenario world.
@@ -609,6 +614,15 @@ func runC13(c *harness.Ctx) {
 				R.Cover("C13/matrix-legs-input-compared")
 			}
 		})
+	}
+	// growth histories (long URI lists, 520 creates, long and overlapping role lists) under the input
+	// comparison
+	if !c.Race {
+		for v := 0; v < 4; v++ {
+			if mine(c, 1+v) {
+				growthHistory(c, v, 2, "C13")
+			}
+		}
 	}
 	// the scenario library, with schedule changes and epoch notifications as configuration
 	for si, sc := range Scenarios() {
